@@ -700,14 +700,13 @@ func refineRoute(c Case, r Route, limits map[string]int64, rng *rand.Rand) []Con
 			}
 		}
 	case "huge":
+		// nothing is held back: members that size an allocation are sent with huge values too. The
+		// process runs under an address-space limit and a crash is attributed to the request in flight.
 		for _, f := range r.Fields {
 			switch {
 			case numeric(f):
 				vals := []string{"2147483648", "9223372036854775807", "99999999999999999999", "1e308", "1e400", "1.5", "1e3"}
 				for _, v := range vals {
-					if dangerousHuge(f.JSON, v) {
-						continue
-					}
 					b := base.clone()
 					b.set(f.JSON, raw(v))
 					out = append(out, withBody(f.JSON+":="+v, b.json()))
@@ -924,11 +923,6 @@ func refineRoute(c Case, r Route, limits map[string]int64, rng *rand.Rand) []Con
 	}
 	return out
 }
-
-// dangerousHuge: members that size an allocation proportional to their value in the handler's own
-// arithmetic are still sent (that is the point of the class) — nothing is filtered here. The
-// process runs under an address-space limit and a crash is attributed to the request in flight.
-func dangerousHuge(name, v string) bool { return false }
 
 func cloneQ(m map[string]string) map[string]string {
 	out := map[string]string{}
